@@ -212,6 +212,7 @@ func (in *instrumenter) instrumentFile(path, rel string) error {
 	}
 
 	swapped := false
+	keepRuntime := false
 	if in.swapSync && syncName != "" {
 		ast.Inspect(f, func(n ast.Node) bool {
 			se, ok := n.(*ast.SelectorExpr)
@@ -540,6 +541,19 @@ func (in *instrumenter) instrumentFile(path, rel string) error {
 		})
 	}
 
+	// runtime.SetFinalizer -> verifrt.SetFinalizer (every build: a finalizer runs on a
+	// goroutine of the runtime and its instrumented statements must stay out of the scheduler)
+	ast.Inspect(f, func(n ast.Node) bool {
+		se, ok := n.(*ast.SelectorExpr)
+		if !ok {
+			return true
+		}
+		if id, ok := se.X.(*ast.Ident); ok && id.Name == "runtime" && id.Obj == nil && se.Sel.Name == "SetFinalizer" {
+			sp = append(sp, splice{off: off(id.Pos()), del: len("runtime"), text: "verifrt"})
+			keepRuntime = true
+		}
+		return true
+	})
 	if len(sp) == 0 {
 		return nil
 	}
@@ -557,6 +571,9 @@ func (in *instrumenter) instrumentFile(path, rel string) error {
 	out.Write(src[last:])
 	if swapped && syncName != "" {
 		fmt.Fprintf(&out, "\nvar _ %s.Locker\n", syncName)
+	}
+	if keepRuntime {
+		out.WriteString("\nvar _ = runtime.NumCPU // keeps the import used\n")
 	}
 	return os.WriteFile(path, out.Bytes(), 0o644)
 }
